@@ -99,11 +99,9 @@ pub fn resolve_non_predicate_params(item_impl: &mut syn::ItemImpl) {
 
     for param in &mut item_impl.generics.params {
         match param {
-            syn::GenericParam::Lifetime(syn::LifetimeParam { lifetime, .. }) => {
-                if let Some(new_lifetime) = lifetimes.get(&lifetime.ident) {
-                    lifetime.ident = new_lifetime.clone();
-                }
-            }
+            // NOTE: A lifetime declaration is itself a lifetime, the resolver below renames it
+            // together with its occurrences (renaming it here too would rename it twice)
+            syn::GenericParam::Lifetime(_) => {}
             syn::GenericParam::Type(syn::TypeParam { ident, .. }) => {
                 if let Some(new_ident) = type_params.get(ident) {
                     *ident = new_ident.clone();
